@@ -57,6 +57,8 @@ class NdefApp(object):
             return b"\x67\x00"
         cla, ins, p1, p2 = apdu[0:4]
         body = apdu[4:]
+        if cla == 0x80 and ins == 0x10:
+            body = b""
         lc, data, le = 0, b"", None
         if len(body) == 0:
             pass
@@ -72,6 +74,14 @@ class NdefApp(object):
                 data, le = body[1:1 + lc], (body[-1] or 256)
             else:
                 return b"\x67\x00"
+        if cla == 0x80 and ins == 0x10:
+            # laboratory instruction: response of (P1<<8|P2) bytes that names this execution
+            import hashlib
+            n = p1 << 8 | p2
+            head = len(self.executed).to_bytes(2, "big") + hashlib.sha1(apdu).digest()[:6]
+            out = (head * (n // 8 + 1))[:n]
+            self.state_changes += 1
+            return out + b"\x90\x00"
         if cla != 0x00:
             return b"\x6E\x00"
         if ins == 0xA4:
